@@ -13,4 +13,12 @@ CONTROLS = [
          expect=r"no-pk-branch/block.ensures\[0\]"),
     dict(name="BENIGN: local `candidate_pks` renamed throughout sqlalchemy/utils/emit_utils.py", benign=True,
          edits=[("cdd/sqlalchemy/utils/emit_utils.py", "candidate_pks", "pk_candidates", "rename")]),
+    dict(name="the SQLAlchemy emitter's own table writes float as Integer (masked once the OpenAPI utilities are imported)",
+         edits=[("cdd/sqlalchemy/utils/emit_utils.py", '        "float": "Float",\n', '        "float": "Integer",\n')],
+         expect=r"type-tables/sqlalchemy-only/float-"),
+    dict(name="the parser's table reads String back as bytes",
+         edits=[("cdd/sqlalchemy/utils/parse_utils.py", '    "String": "str",\n', '    "String": "bytes",\n')],
+         expect=r"type-tables/(sqlalchemy-only|with-openapi-utils)/str-"),
+    dict(name="BENIGN: an extra spelling added to the parser's table", benign=True,
+         edits=[("cdd/sqlalchemy/utils/parse_utils.py", '    "String": "str",\n', '    "String": "str",\n    "VARCHAR": "str",\n')]),
 ]
